@@ -206,7 +206,11 @@ func (p *params) num(rt *rapid.T, label string, lo, hi int, nilOK, hashOK bool) 
 	case k == 11 && hashOK:
 		p.add("#", nil)
 	default:
-		p.add(strconv.Itoa(rapid.IntRange(lo, hi).Draw(rt, label)), nil)
+		txt := strconv.Itoa(rapid.IntRange(lo, hi).Draw(rt, label))
+		if k == 7 {
+			txt = "+" + txt // prefix parameters are optionally signed
+		}
+		p.add(txt, nil)
 	}
 }
 
@@ -355,7 +359,7 @@ func pSpell(rt *rapid.T) piece {
 		if at {
 			return []Arg{reffmt.I(int64(rapid.IntRange(1, 3999).Draw(rt, "roman")))}
 		}
-		return []Arg{reffmt.I(int64(rapid.IntRange(-20, 20).Draw(rt, "spell")))}
+		return []Arg{reffmt.I(int64(rapid.IntRange(0, 20).Draw(rt, "spell")))} // negative: "minus" or "negative" is open, see sub-property english
 	}}
 }
 
@@ -532,7 +536,7 @@ func pCond(rt *rapid.T, c ctx) piece {
 	}
 	switch form {
 	case 1: // literal selector
-		sel := big.NewInt(int64(rapid.IntRange(0, nc+1).Draw(rt, "cond-lit")))
+		sel := big.NewInt(int64(rapid.IntRange(-1, nc+1).Draw(rt, "cond-lit")))
 		ch := pick(sel)
 		if ch == nil {
 			return lit("~" + sel.String() + body)
